@@ -421,14 +421,19 @@ package main
 //@ requires imp(hasTg, tyg != nil)
 //@ requires imp(hasTg && !prevGOK, is(first(zvg), types.Int64) && second(zvg) == nil && as(first(zvg), types.Int64).Null && !as(first(zvg), types.Int64).Unknown)
 //@ requires imp(factive, wf != nil) && imp(gactive, wg != nil)
-//@ modifies tf.Null, tf.Unknown, tf.Attrs, tf.Attrs["f"], tf.Attrs["g"]
+//@ modifies tf.Null, tf.Unknown, tf.Attrs, tf.Attrs["f"], tf.Attrs["g"], tf.Attrs["s"]
+//@ define hasTs = old(has(tf.AttrTypes, "s"))
+//@ define tys = old(tf.AttrTypes["s"])
+//@ define zvs = tys.ValueFromTerraform(ctx, tftypes.NewValue(tys.TerraformType(ctx), nil))
+//@ requires imp(hasTs, tys != nil)
+//@ requires imp(hasTs && !(old(has(tf.Attrs, "s")) && is(old(tf.Attrs["s"]), types.Int64)), is(first(zvs), types.Int64) && second(zvs) == nil && as(first(zvs), types.Int64).Null && !as(first(zvs), types.Int64).Unknown)
 //@ ensures [C06] imp(!hasT, dhas(result, missingD) && untouched)
 //@ ensures [C07,C03] imp(hasTg, has(tf.Attrs, "g") && is(outg, types.Int64) && !og.Unknown)
 //@ ensures [C07,C20] imp(hasTg && !prevGOK, og.Null == !(gactive && wg.G != 0))
 //@ ensures [C07] imp(hasTg && gactive, og.Value == int64(wg.G))
 
 //@ emits CopyTo when Kind == "Primitive" && OneOf
-//@ ensures [C06] imp(hasT && hasTg, len(result) == 0)
+//@ ensures [C06] imp(hasT && hasTg && hasTs, len(result) == 0)
 //@ ensures [C07,C03] imp(hasT, has(tf.Attrs, "f") && is(out, $EVT) && !o.Unknown)
 //@ ensures [C07,C19] imp(hasT && factive, same(o.Value, $CastTo(wf.F)))
 
